@@ -3,6 +3,7 @@
 package simrt
 
 import (
+	"time"
 	"io/fs"
 	"os"
 	"path/filepath"
@@ -58,6 +59,22 @@ var errnoByName = map[string]syscall.Errno{
 
 // gate logs an operation and returns a non-nil error if it must not proceed.
 func gate(op, path, path2 string, write bool, flags int) (int, error) {
+	s.mu.Lock()
+	s.allOps++
+	stall := 0
+	if s.cfg.StallOp != 0 && s.allOps == s.cfg.StallOp && s.cfg.StallSec > 0 && gs.active {
+		stall = s.cfg.StallSec
+		s.rec.Fired["machine_stall"]++
+		s.now += int64(stall) * int64(time.Second)
+	}
+	s.mu.Unlock()
+	if stall > 0 {
+		time.Sleep(time.Duration(stall) * time.Second) // the bubble's clock
+	}
+	return gateLogged(op, path, path2, write, flags)
+}
+
+func gateLogged(op, path, path2 string, write bool, flags int) (int, error) {
 	s.mu.Lock()
 	defer s.mu.Unlock()
 	o := Op{Op: op, Path: absClean(path), Write: write, Flags: flags}
